@@ -1572,3 +1572,48 @@ def symbol_bank_rule(run, R="MPT"):
                     bad.append("%s: `%s`" % (f.loc(st["span"]), v[:80]))
     run.check(n_some >= 1 and not bad, R, R + "|symbol-bank|from-context", "-", "a label's bank is the resolver context's current bank (%d store(s)); nothing else writes it" % n_some,
               "a symbol's bank is taken from %s, not from the resolver context that laid the label out: the bank of a label after `#bankdef` (which selects the new bank implicitly) would be wrong in the Mesen listing" % ("; ".join(bad) or "nowhere"))
+
+
+def body_file_rule(run, R="INC"):
+    """a stored body (the production of a rule, the body of a #fn) is evaluated under a resolver context whose file is the file
+    the body was written in -- `ctx.file_handle_ctx = Some(<body>.span().file_handle)` on a private copy of the context -- so that
+    relative file names in it (incbin, incbinstr, inchexstr) are relative to that file, not to the file of the instruction or call
+    that uses it.  Sibling agreement between the two places that evaluate stored bodies."""
+    n, bad = 0, []
+    for f in run.prog.real_fns():
+        for bi, t in f.calls():
+            c = t.get("resolved") or t.get("callee") or ""
+            if not c.endswith("asm::resolver::eval::eval"):
+                continue
+            ex = _deep(f, t["args"][-1], 8)
+            if not re.search(r"DefList::get\(P\d+\.(ruledefs|functions)", ex):
+                continue
+            n += 1
+            ctx_ops = [a for a, ty in zip(t["args"], t.get("arg_tys") or []) if "ResolverContext" in ty]
+            okc = False
+            if len(ctx_ops) == 1 and op_local(ctx_ops[0]) is not None:
+                # the local behind the reference
+                o = f.origin_op(ctx_ops[0])
+                root = None
+                while o and o[0] in ("ref", "cast"):
+                    o = o[1]
+                if o and o[0] == "multi":
+                    root = o[1]
+                elif o and o[0] == "call" and (o[1].get("callee") or "").endswith("Clone::clone"):
+                    root = f.copy_root(o[1]["dest"]["l"])
+                else:
+                    l0 = op_local(ctx_ops[0])
+                    ds = f.full_defs(f.copy_root(l0))
+                    if len(ds) == 1 and ds[0][0] == "stmt" and ds[0][3]["rv"]["k"] == "ref":
+                        root = ds[0][3]["rv"]["place"]["l"]
+                if root is not None and root > f.arg_count:
+                    for b2, s2, st2 in f.stmts():
+                        if st2["k"] == "assign" and st2["place"]["l"] == root and st2["place"]["p"] and isinstance(st2["place"]["p"][-1], dict) \
+                                and st2["place"]["p"][-1].get("name") == "file_handle_ctx" and st2["rv"]["k"] == "use":
+                            v = _deep(f, st2["rv"]["op"], 10)
+                            if v == "Some{Expr::span(%s).file_handle}" % ex and f.dominates(b2, bi):
+                                okc = True
+            if not okc:
+                bad.append("%s evaluates the stored body `%s` under the context of its user" % (f.id, ex[:70]))
+    run.check(n >= 2 and not bad, R, R + "|body-file", "-", "stored rule productions and function bodies are evaluated under a context that names their own file (%d site(s))" % n,
+              "%s: a relative file name inside the body (incbin / incbinstr / inchexstr) would be resolved relative to the file that uses the rule or calls the function" % ("; ".join(bad) or "evaluations of stored bodies not found"))
